@@ -14,7 +14,7 @@ RULE = ('exhaustive: every subset of 8 registration keys (Use.ref, *.ref, Use.*,
         'and the provider call log are compared with the documented precedence. distinct = (subset, grammar variant, provider '
         'kind, dict order); non-trivial = at least 2 keys registered')
 REQUIRED = {'references_checked': 1000, 'grammar_rrel_wins_checked': 50, 'default_provider_checked': 3,
-            'rrel_string_checked': 50, 'falsy_provider_objects_cases': 50}
+            'rrel_string_checked': 50, 'falsy_provider_objects_cases': 50, 'cases_with_an_earlier_registration': 100}
 
 KEYS = ['Use.ref', '*.ref', 'Use.*', '*.*', 'Other.ref', 'Use.refs', '*.refs', 'Other.*']
 
@@ -85,6 +85,13 @@ def one(ctx, subset, gvariant, kind, reverse, via_ctor, rep):
     sp = {k: mk(k) for k in keys}
     g = HEAD + '\n'.join(GRAMMARS[gvariant])
     mm = metamodel_from_str(g)
+    if (len(subset) + len(gvariant) + reverse) % 2 == 0:
+        # an earlier registration on the same metamodel (all four keys): the second call replaces it completely
+        def stale(obj, attr, obj_ref):
+            log.append(('stale registration', type(obj).__name__, attr.name))
+            return None
+        mm.register_scope_providers({k: stale for k in KEYS})
+        ctx.count('cases_with_an_earlier_registration')
     mm.register_scope_providers(sp)
     text = model_text(subset, gvariant)
     from textx import TextXError
